@@ -56,7 +56,7 @@ func checkC13(c *Ctx) {
 	execs := c.batchExecutedFns(reach)
 	r.Min("C13.cancel-callers", 2)
 	r.Min("C13.timeout-guard", 4)
-	r.Min("C13.older-same-token", 3)
+	r.Min("C13.older-same-token", 4)
 	r.Min("C13.exact-delete", 1)
 	if len(cancels) == 0 {
 		r.Undecided("C13.cancel-callers", "role", "-", "no batch-cancel function found")
@@ -133,7 +133,18 @@ func checkC13(c *Ctx) {
 					"on execution a batch is cancelled without the strict 'older nonce' test on the batch being cancelled")
 				r.Check(g2, "C13.older-same-token", "same-token:"+fname(e.Caller), c.pos(in), "cancel guarded by other.ExternalTokenId == executed.ExternalTokenId",
 					"on execution a batch of a different token can be cancelled: the same-token test is missing (the contract tracks batch nonces per token, so that batch can still execute)")
-				// the executed batch is the one looked up from the event's token id and nonce
+				// the scan that cancels older batches visits every batch of the chain: batches are ordered by token and
+				// nonce, so a callback that can stop the iteration leaves older batches of the executed token behind
+				if cb := e.Caller; cb.Parent() != nil && cb.Signature.Results().Len() == 1 && cb.Signature.Results().At(0).Type().String() == "bool" {
+					stops := ""
+					ana.Instrs(cb, func(i2 ssa.Instruction) {
+						if ret, ok := i2.(*ssa.Return); ok && i2.Parent() == cb && len(ret.Results) == 1 && !isConstVal(ret.Results[0], "false") {
+							stops = c.pos(i2)
+						}
+					})
+					r.Check(stops == "", "C13.older-same-token", "full-scan:"+fname(cb), c.pos(in), "the scan over the chain's batches never stops early",
+						"the scan that cancels the older batches of the executed token can stop early (return at "+stops+"): older batches that the contract can no longer execute stay pending")
+				}
 				_ = execRoot
 			case beginReach[e.Caller] && !isRoot(e.Caller, roots.Msg):
 				r.Ok("C13.cancel-callers", "sweep:"+fname(e.Caller), c.pos(in), "called from the begin-block timeout sweep")
